@@ -128,7 +128,7 @@ func (ex *Exec) freshOfType(t types.Type, prefix string) Term {
 	s := ex.U.SortOf(t)
 	v := ex.U.Fresh(prefix, s)
 	if s.Kind == KRef {
-		ex.facts = append(ex.facts, "(>= "+v.S+" 0)")
+		ex.facts = append(ex.facts, "(and (>= "+v.S+" 0) (<= "+v.S+" "+ex.st.ghost["alloc"].S+"))")
 	}
 	return v
 }
@@ -720,6 +720,20 @@ func (ex *Exec) callExternal(c *ast.CallExpr, o *types.Func, args []Term, argTyp
 	}
 	if r, ok := ex.osModel(full, c, args); ok {
 		return r
+	}
+	// an unmodelled operating-system primitive may change the file system / stdout ghost state
+	if o.Pkg() != nil {
+		switch o.Pkg().Path() {
+		case "os", "io/ioutil", "io", "bufio", "syscall", "os/exec", "io/fs":
+			if !extPure[full] {
+				for _, gv := range ghostVars {
+					if gv.Cat == "fs" || gv.Cat == "stdout" {
+						ex.st.ghost[gv.Name] = ex.U.Fresh(gv.Name, gv.Sort)
+					}
+				}
+				ex.note("unmodelled OS primitive " + full + ": file-system and stdout ghost state havoc")
+			}
+		}
 	}
 	// default: fresh results; may write through pointer / map arguments
 	if !extPure[full] {
